@@ -212,6 +212,7 @@ theorem HK_aclosed (H : List Nat) (n0 : Nat) (σ : Nat → Nat) : AClosed (HK H 
     rw [List.countP_append]
     omega
   level := fun e l hk => HK_same hk rfl rfl rfl rfl (fun _ => rfl)
+  hops := fun e l hk => HK_same hk rfl rfl rfl rfl (fun _ => rfl)
 
 theorem hookRuns_cons (o : Obs) (obs : List Obs) (h : Nat) :
     hookRuns (o :: obs) h = hookRuns obs h + if hookIs h o then 1 else 0 := by
@@ -281,6 +282,8 @@ theorem segBody_HK {H : List Nat} {n0 : Nat} (now : Nat) (e : Eff) (pid tag : Na
   have hl := getElem?_some_lt hp
   have h0 : HK H n0 (fun _ => 0) (segStart now e pid tag p) := by
     unfold segStart
+    refine HK_same (e := (if p.started then addObs e (.resume now pid p.send tag) else e).setProc pid
+      { p with started := true, send := .none }) ?_ rfl rfl rfl rfl (fun _ => rfl)
     split
     · exact HK_setProc (HK_addObs hk _ (by intro t h; simp)) pid _ p hp rfl
     · exact HK_setProc hk pid _ p hp rfl
